@@ -276,8 +276,8 @@ def run(prog: Program, rep: Report, tier: str) -> None:
     days_sequence_rule(prog, rep)
 
 
-def config_sweep(prog: Program, rep: Report) -> None:
-    """R2.5: who stores the configuration attributes."""
+def config_sweep(prog: Program, rep: Report, rid: str = "R2.5") -> None:
+    """R2.5 (shared with C03 R3.7): who stores the configuration attributes."""
     names = {"_device_id": "device_id", "_device_key": "device_key", "_port": "port", "_ip_address": "ip_address"}
     found = {n: 0 for n in names}
     for m in prog.all_modules(True):
@@ -298,14 +298,14 @@ def config_sweep(prog: Program, rep: Report) -> None:
                                 val = getattr(node, "value", None)
                                 ok = fi.qualname == "SwitcherApi.__init__" and isinstance(val, ast.Name) and val.id == names[sub.attr]
                                 found[sub.attr] += 1
-                                rep.check(ok, "R2.5", f"store {sub.attr}", where,
+                                rep.check(ok, rid, f"store {sub.attr}", where,
                                           f"{sub.attr} is (re)assigned in {fi.qualname} from `{ast.unparse(val) if val is not None else 'del'}`: frames may carry an id/key other than the configured one",
-                                          key=f"R2.5|{fi.qualname}|{sub.attr}")
+                                          key=f"{rid}|{fi.qualname}|{sub.attr}")
                     if isinstance(node, ast.Call) and ast.unparse(node.func) in ("setattr", "object.__setattr__"):
-                        rep.bad("R2.5", "setattr", f"{m.relpath}:{node.lineno} {fi.qualname}", "dynamic attribute store: configuration writers can no longer be enumerated")
+                        rep.bad(rid, "setattr", f"{m.relpath}:{node.lineno} {fi.qualname}", "dynamic attribute store: configuration writers can no longer be enumerated")
     for n, k in found.items():
         if k == 0:
-            rep.undecided("R2.5", f"store {n}", "-", f"anchor vanished: no store of {n} found")
+            rep.undecided(rid, f"store {n}", "-", f"anchor vanished: no store of {n} found")
 
 
 def clock_split_rule(prog: Program, rep: Report) -> None:
